@@ -3,20 +3,41 @@
 package main
 
 import (
+	"encoding/json"
 	"flag"
 	"fmt"
+	"io/ioutil"
 	"os"
 	"strconv"
 
 	"qedverif/lib"
+	"qedverif/props/clientp"
+	"qedverif/props/cluster"
+	"qedverif/props/gossipp"
+	"qedverif/props/hostile"
+	"qedverif/props/stores"
 	"qedverif/props/tree"
 )
 
 var runners = map[string]func(*lib.Ctx){
-	"C04": tree.RunC04,
+	"C01": tree.RunC01, "C02": tree.RunC02, "C03": tree.RunC03, "C04": tree.RunC04, "C13": tree.RunC13,
+	"C05": cluster.RunC05, "C06": cluster.RunC06, "C07": cluster.RunC07, "C08": cluster.RunC08,
+	"C09": cluster.RunC09, "C10": cluster.RunC10, "C16": cluster.RunC16,
+	"C11": hostile.RunC11, "C12": hostile.RunC12,
+	"C14": stores.RunC14, "C15": stores.RunC15,
+	"C17": gossipp.RunC17, "C18": gossipp.RunC18, "C19": gossipp.RunC19,
+	"C20": clientp.RunC20,
 }
 
 var workers = map[string]func(args []string) int{}
+
+func init() {
+	for _, m := range []map[string]func([]string) int{tree.Workers, cluster.Workers, hostile.Workers, stores.Workers, gossipp.Workers, clientp.Workers} {
+		for k, v := range m {
+			workers[k] = v
+		}
+	}
+}
 
 func main() {
 	if len(os.Args) < 2 {
@@ -31,6 +52,35 @@ func main() {
 			os.Exit(2)
 		}
 		os.Exit(w(os.Args[3:]))
+	case "replay":
+		buf, err := ioutil.ReadFile(os.Args[2])
+		if err != nil {
+			fmt.Fprintln(os.Stderr, err)
+			os.Exit(2)
+		}
+		var rep struct {
+			Property string
+			Tier     string
+			Seed     int64
+			Detail   map[string]interface{}
+		}
+		if err := json.Unmarshal(buf, &rep); err != nil {
+			fmt.Fprintln(os.Stderr, err)
+			os.Exit(2)
+		}
+		run, ok := runners[rep.Property]
+		if !ok {
+			fmt.Fprintln(os.Stderr, "unknown property", rep.Property)
+			os.Exit(2)
+		}
+		c := lib.NewCtx(rep.Property, rep.Tier, rep.Seed, envOr("VERIF_ROOT", "/verif"))
+		if id, ok := rep.Detail["id"].(string); ok {
+			c.Only = id
+		}
+		c.NoEvidence = true
+		fmt.Printf("replaying %s tier=%s seed=%d case=%q\n", rep.Property, rep.Tier, rep.Seed, c.Only)
+		run(c)
+		os.Exit(c.Finish())
 	case "run":
 		prop := os.Args[2]
 		fs := flag.NewFlagSet("run", flag.ExitOnError)
